@@ -180,6 +180,17 @@ def stopReaches : List Call → List Obs → Bool
 def cStopReaches (i : Input) (t : Trace) : Bool :=
   !(inScope i && i.shape.noStream) || stopReaches i.hist t.obs
 
+/-- `stop()` on the object reported to makes its `shouldStop` read true — on every graph: through old-flavour results
+(the adapter's reading) and on a stream pipeline, where `stop()` is the `ExtendedToStreamDecorator`'s own
+(`TestControl`): it is what suites consult, and it does not go on to the results behind the stream -/
+def stopSets : List Call → List Obs → Bool
+  | [], [] => true
+  | c :: h, o :: os => (!(c == .stop) || o.ss) && stopSets h os
+  | _, _ => false
+
+def cStopSets (i : Input) (t : Trace) : Bool :=
+  !inScopeA i || stopSets i.hist t.obs
+
 /-! ### every result by itself: its own fail-fast setting survives whatever wrappers do -/
 /- `failfast` as a freshly built object reads it: a `MultiTestResult` reads its first target's, an
 `ExtendedToOriginalDecorator` its target's (its own flag, initially false, if the target has none), a
@@ -217,7 +228,7 @@ def ffRead? (s : Shape) : Option Bool := if (caps s).failfast then some (ffRead 
 
 /-- without assignments through the wrappers, `failfast` reads the same from construction on and after every call -/
 def cFailfastRead (i : Input) (t : Trace) : Bool :=
-  !(inScopeA i && i.shape.noStream && noAssign i.hist) ||
+  !(inScopeA i && noAssign i.hist) ||
   (t.ff0 == ffRead? i.shape && t.obs.all (·.ff == ffRead? i.shape))
 
 /-- no assignment of `failfast` through a wrapper: every result keeps the setting it was built with, after every call -/
@@ -278,7 +289,7 @@ def cExit (i : Input) (t : Trace) : Bool :=
 def clauses : List (String × (Input → Trace → Bool)) :=
   [("verdict", cVerdict), ("text-summary", cText), ("failfast-kept", cFailfastKept),
    ("failfast-stops", cFailfastStops), ("stop-sticky", cSticky), ("not-earlier", cNotEarlier),
-   ("stop-reaches", cStopReaches), ("failfast-read", cFailfastRead), ("leaf-failfast-kept", cLeafKept), ("leaf-stops", cLeafStops),
+   ("stop-reaches", cStopReaches), ("stop-sets", cStopSets), ("failfast-read", cFailfastRead), ("leaf-failfast-kept", cLeafKept), ("leaf-stops", cLeafStops),
    ("exit-status", cExit)]
 
 def holds (i : Input) (t : Trace) : Bool := clauses.all fun c => c.2 i t
